@@ -372,7 +372,8 @@ static int vi_prefix(void)
 	int c = vi_read();
 	if ((c >= '1' && c <= '9')) {
 		while (isdigit(c)) {
-			n = n * 10 + c - '0';
+			if (n < 100000000)	/* saturate instead of overflowing */
+				n = n * 10 + c - '0';
 			c = vi_read();
 		}
 	}
@@ -480,10 +481,17 @@ static int vi_search(int cmd, int cnt, int *row, int *off)
 	return failed != NULL;
 }
 
+/* the count of a command, limited so that adding it to a row or an offset cannot overflow */
+static int vi_cnt(void)
+{
+	long long n = (long long) (vi_arg1 ? vi_arg1 : 1) * (vi_arg2 ? vi_arg2 : 1);
+	return n > 0 && n < (1 << 30) ? n : 1 << 30;
+}
+
 /* read a line motion */
 static int vi_motionln(int *row, int cmd)
 {
-	int cnt = (vi_arg1 ? vi_arg1 : 1) * (vi_arg2 ? vi_arg2 : 1);
+	int cnt = vi_cnt();
 	int c = vi_read();
 	int mark, mark_row, mark_off;
 	switch (c) {
@@ -567,7 +575,7 @@ static int vi_curword(struct lbuf *lb, char *dst, int len, int row, int off, cha
 static int vi_motion(int *row, int *off)
 {
 	char cw[120], kw[128];
-	int cnt = (vi_arg1 ? vi_arg1 : 1) * (vi_arg2 ? vi_arg2 : 1);
+	int cnt = vi_cnt();
 	char *ln = lbuf_get(xb, *row);
 	int dir = dir_context(ln ? ln : "");
 	int mark, mark_row, mark_off;
